@@ -20,7 +20,8 @@
     are correct in the implementation but not covered by the proof
     ([Unproved_C20]; correspondence layers only). *)
 From Cicada Require Import Base.Chars Base.Tag Gen.EscapeClass Model.Tokenizer Model.Redirect Model.Cmds Model.Complete
-  Proofs.TokenizerProofs Proofs.TokenizerEscProofs Proofs.CompleteProofs Proofs.WordStartProofs.
+  Proofs.TokenizerProofs Proofs.TokenizerEscProofs Proofs.CompleteProofs Proofs.WordStartProofs Proofs.CandidatesProofs.
+From Coq Require Import Sorting.Permutation.
 Local Open Scope N_scope.
 
 Definition C20_full : Prop :=
@@ -94,6 +95,20 @@ Theorem C20_word_start_boundary : forall line,
   exists pre word, line = pre ++ word /\ split_bytes (escaped_word_start line) line = Some (pre, word).
 Proof. exact word_start_boundary. Qed.
 
+(** the candidates for a word whose last token is a plain prefix (no directory part, no
+    bar, no home / environment form): exactly the entries of the current directory
+    that start with it (directories only for cd), rendered by comp_of, sorted *)
+Theorem C20_candidates : forall fs getenv word for_dir sep pfx entries,
+  last_token (parse_line word) = (sep, pfx) ->
+  has_char c_slash pfx = false -> has_char c_pipe pfx = false ->
+  needs_expand_home pfx = false -> starts_with_c c_dollar pfx = false ->
+  fs [c_dot] = Some entries ->
+  exists l, complete_path fs getenv word for_dir = COk l /\
+    sorted_comps l = true /\
+    Permutation l (map (comp_of [] sep (is_env_prefix word))
+                       (filter (fun e => (negb for_dir || snd e) && starts_with (fst e) pfx) entries)).
+Proof. exact candidates_exact. Qed.
+
 Check C20_partial : forall expand q cmd name d,
   honours_guards expand -> cmd_word cmd = true -> valid_filename name = true ->
   Known_C20 q name d = false -> Unproved_C20 q name = false ->
@@ -115,3 +130,4 @@ Print Assumptions C20_partial.
 Print Assumptions C20_parse_escaped.
 Print Assumptions C20_escape_class_covers.
 Print Assumptions C20_word_start_boundary.
+Print Assumptions C20_candidates.
